@@ -134,6 +134,7 @@ Color = Union[
     float,  # Greyscale
     Tuple[float, float, float],  # R, G, B
     Tuple[float, float, float, float],  # C, M, Y, K
+    Tuple[float, ...],  # any other number of components (DeviceN)
 ]
 
 
@@ -836,9 +837,20 @@ class PDFPageInterpreter:
             else:
                 self.graphicstate.scolor = cmyk
 
+        elif n > 1:
+            # other numbers of components (DeviceN): the values as they are
+            values = self.pop(n)
+            floats = [safe_float(v) for v in values]
+            if len(floats) != n or any(f is None for f in floats):
+                log.warning(
+                    f"Cannot set stroke color because not all values in {values!r} can be parsed as floats"
+                )
+            else:
+                self.graphicstate.scolor = cast(Color, tuple(floats))
+
         else:
             log.warning(
-                f"Cannot set stroke color because {n} components are specified but only 1 (grayscale), 3 (rgb) and 4 (cmyk) are supported"
+                f"Cannot set stroke color because {n} components are specified"
             )
 
     def do_scn(self) -> None:
@@ -883,9 +895,20 @@ class PDFPageInterpreter:
             else:
                 self.graphicstate.ncolor = cmyk
 
+        elif n > 1:
+            # other numbers of components (DeviceN): the values as they are
+            values = self.pop(n)
+            floats = [safe_float(v) for v in values]
+            if len(floats) != n or any(f is None for f in floats):
+                log.warning(
+                    f"Cannot set non-stroke color because not all values in {values!r} can be parsed as floats"
+                )
+            else:
+                self.graphicstate.ncolor = cast(Color, tuple(floats))
+
         else:
             log.warning(
-                f"Cannot set non-stroke color because {n} components are specified but only 1 (grayscale), 3 (rgb) and 4 (cmyk) are supported"
+                f"Cannot set non-stroke color because {n} components are specified"
             )
 
     def do_SC(self) -> None:
